@@ -540,6 +540,17 @@ def run_model_case(nq, out, env, case):
             continue
         out.trans()
         try:
+            # history: the instance is first used for ANOTHER state (set, evaluate), then re-used for rho. Everything below is
+            # recomputed from the instance as it is after the second set_density_matrix, so anything left over from the first
+            # state (a cached contraction with the old sqrt(rho) baked in, ...) shows up as a loss that is not the average of
+            # the ensemble of rho.
+            try:
+                v_other = np.array([np.cos(0.3), 0, 0, np.sin(0.3)], dtype=np.complex128)
+                model.set_density_matrix(np.outer(v_other, v_other.conj()))
+                with torch.no_grad():
+                    model()
+            except Exception:
+                out.count('reuse_preamble_failed')
             model.set_density_matrix(rho)
         except AssertionError as e:
             if core.is_precondition_assert(e) and r_eff < R.rank:
